@@ -884,6 +884,24 @@ func (f *Frame) loopEnvFor(li *loopInfo, over map[*ssa.Phi]*Val) *loopEnv {
 		}
 	}
 	chain = append(chain, li)
+	// variables merged before the loop (not loop-carried): nearest dominating phi by source name
+	for b := li.header.Idom(); b != nil; b = b.Idom() {
+		for _, in := range b.Instrs {
+			phi, ok := in.(*ssa.Phi)
+			if !ok {
+				break
+			}
+			if phi.Comment == "" {
+				continue
+			}
+			if _, seen := env.phis[phi.Comment]; seen {
+				continue
+			}
+			if v := f.vals[phi]; v != nil {
+				env.phis[phi.Comment] = v
+			}
+		}
+	}
 	for _, l := range chain {
 		for _, in := range l.header.Instrs {
 			phi, ok := in.(*ssa.Phi)
